@@ -163,9 +163,12 @@ def c08(sc, tr):
         else:
             kv = {}
             for l in I.trailer[1:]:
-                if ':' in l:
-                    a, b = l.split(':', 1)
-                    kv[a.strip()] = b.strip()
+                a, _, b = l.partition(':')
+                if not _ or a.strip() not in PARAM_KEYS.values() or \
+                        a.strip() in kv:
+                    bad('text-after-parameter-block', {'line': l[:60]})
+                    break
+                kv[a.strip()] = b.strip()
             for key, label in PARAM_KEYS.items():
                 if p.get(key) is None or (key == 'n3' and mp != 'spa') or \
                         (mp == 'sm' and key in ('n2',)):
